@@ -17,6 +17,11 @@ scheduling points, one baton).  Iterative preemption bounding: all schedules wit
 and 1 preemptions (quick), 2 (thorough, capped); thorough adds two 3-thread harnesses at bound 1.  Oracle: each thread observes its
 sequential result, and the same bodies run sequentially afterwards still do (the shared
 environment / query objects are left intact).
+Compile-only part: two threads each call env.compile(text) on one shared environment that
+has (or has not) compiled the text before; these bodies are short enough (119-552 scheduling
+points each) for ALL schedules with <= 2 preemptions, split into 16 slices by the smallest
+preemption of a schedule (quick: the same-text / already-compiled harness; thorough: all four).
+Oracle: both threads get a query that prints and evaluates like the sequential one.
 """
 import itertools
 import os
@@ -31,7 +36,8 @@ RULE = (
     "iterator part: 10 queries x 6 harness configurations (sharing of query / environment / document) "
     "x all interleavings of next() over 2-3 iterators (multinomial; every schedule replayed on fresh "
     "iterators) + all single close/drop points for k=2; thread part: 15 two-thread harnesses x all "
-    "schedules with <=1 (quick) / <=2 (thorough) preemptions at line granularity; distinct by "
+    "schedules with <=1 (quick) / <=2 (thorough, capped) preemptions at line granularity; compile-only part: "
+    "1 (quick) / 4 (thorough) two-thread compile harnesses x ALL schedules with <=2 preemptions; distinct by "
     "construction; non-trivial = schedules in which at least two iterators/threads are live at once"
 )
 ASSUMPTIONS = [
@@ -64,7 +70,9 @@ def BOUNDS(tier):
     return {"queries": [q for q, _ in QUERIES], "configs": CONFIGS, "max_iterators": 3,
             "interleaved_next_calls_per_iterator": {"k=2": 5, "k=3": 3} if tier == "quick" else {"k=2": 7, "k=3": 4},
             "thread_preemption_bound": 1 if tier == "quick" else 2,
-            "thread_executions_cap_per_harness": None if tier == "quick" else 6000}
+            "thread_executions_cap_per_harness": None if tier == "quick" else 6000,
+            "compile_only_harnesses": [w[0] for w in (W_HARNESS[:1] if tier == "quick" else W_HARNESS)],
+            "compile_only_preemption_bound": 2, "compile_only_cap": None}
 
 
 def make_iters(config, qi):
@@ -180,6 +188,49 @@ T_HARNESS_3 = [
     ("three threads: finditer x2 shared query + find", 0, 0, "iter", "iter"),
     ("three threads: match two patterns + third pattern", 4, 10, "find", "find"),
 ]
+
+
+# compile-only harnesses, small enough for ALL schedules with <= 2 preemptions (sliced over shards):
+# (name, query of thread A, query of thread B, environment already used for these queries?)
+W_HARNESS = [
+    ("compile / compile, same text, environment already compiled it", "$", "$", True),
+    ("compile / compile, two texts, environment already compiled both", "$", "$.a", True),
+    ("compile / compile, same text, fresh environment", "$", "$", False),
+    ("compile / compile, same filter text, environment already compiled it", "$[?@.a]", "$[?@.a]", True),
+]
+W_DOC = {"a": [1, {"a": 2}]}
+W_SLICES = 16
+
+
+def warm_bodies(w):
+    _, ta, tb, warm = W_HARNESS[w]
+
+    def obs(q):
+        if not isinstance(q, impl.jp.JSONPathQuery):
+            return q
+        return (str(q), [(n.location, id(n.value)) for n in q.finditer(W_DOC)])
+
+    def build():
+        env = impl.jp.JSONPathEnvironment()
+        if warm:
+            for _ in range(2):
+                env.compile(ta)
+                env.compile(tb)
+        return [lambda: env.compile(ta), lambda: env.compile(tb)]
+
+    def make():
+        make.latest = build()
+        return make.latest
+
+    make.post = lambda: [obs(b()) for b in make.latest]
+    make.obs = obs
+    seq = [obs(b()) for b in build()]
+    return make, seq
+
+
+def _slice_of(first, pre):
+    (t, s), _to = min(pre)
+    return (first + 2 * t + 4 * s) % W_SLICES
 
 
 def thread_bodies(h):
@@ -298,6 +349,8 @@ def shards(tier):
     out += [{"part": "iters", "q": qi, "config": c, "cap": {"2": 5, "3": 3} if tier == "quick" else {"2": 7, "3": 4}}
            for qi in range(N_ITER_QUERIES) for c in CONFIGS]
     out += [{"part": "threads", "h": h, "tier": tier} for h in range(len(T_HARNESS))]
+    ws = [0] if tier == "quick" else range(len(W_HARNESS))
+    out += [{"part": "warm", "w": w, "slice": i, "tier": tier} for w in ws for i in range(W_SLICES)]
     if tier == "thorough":
         out += [{"part": "threads", "h": len(T_HARNESS) + k, "tier": tier, "bound": 1} for k in range(len(T_HARNESS_3))]
     return out
@@ -316,13 +369,17 @@ def check_case(case):
         if bad:
             return violation("iterator-interference", case, "items of the solitary run", bad, "interference")
         return None
-    make, seq = thread_bodies(case["h"])
+    if case["part"] == "warm":
+        make, seq = warm_bodies(case["w"])
+    else:
+        make, seq = thread_bodies(case["h"])
+    obs_of = getattr(make, "obs", lambda x: x)
     pre = tuple(((t, s), to) for t, s, to in case["preemptions"])
     try:
         exe = ts.Execution(make(), pkg_dir(), case["first"], pre).run()
     except ts.Hang as h:
         return violation("thread-hang", case, "terminates", str(h), "interference")
-    obs = [exe.errors[i] or exe.results[i] for i in range(len(seq))]
+    obs = [exe.errors[i] or obs_of(exe.results[i]) for i in range(len(seq))]
     if obs != seq:
         return violation("thread-interference", case, "sequential observations",
                          {"thread_results_differ": [i for i in range(len(seq)) if obs[i] != seq[i]],
@@ -397,12 +454,18 @@ def run_shard(desc):
         sh.sample({"query": QUERIES[desc["q"]][0], "config": desc["config"], "results_per_iterator": [c - 1 for c in counts]},
                   limit=1)
     else:
-        h = desc["h"]
         tier = desc["tier"]
-        make, seq = thread_bodies(h)
+        warm = desc["part"] == "warm"
+        if warm:
+            h = desc["w"]
+            make, seq = warm_bodies(h)
+        else:
+            h = desc["h"]
+            make, seq = thread_bodies(h)
+        obs_of = getattr(make, "obs", lambda x: x)
 
         def check(exe):
-            obs = [exe.errors[i] or exe.results[i] for i in range(len(seq))]
+            obs = [exe.errors[i] or obs_of(exe.results[i]) for i in range(len(seq))]
             if obs != seq:
                 return {"thread_results_differ": [i for i in range(len(seq)) if obs[i] != seq[i]], "errors": exe.errors}
             # the shared objects must also be left intact: the same bodies, run sequentially
@@ -415,22 +478,28 @@ def run_shard(desc):
                 return {"after_the_concurrent_run_sequential_results_differ": True}
             return None
 
-        found, stats = ts.explore(make, pkg_dir(), desc.get("bound", 1 if tier == "quick" else 2), check,
-                                  max_executions=None if tier == "quick" else 6000)
+        if warm:
+            sl = desc["slice"]
+            found, stats = ts.explore(make, pkg_dir(), 2, check, keep=lambda first, pre: _slice_of(first, pre) == sl)
+        else:
+            found, stats = ts.explore(make, pkg_dir(), desc.get("bound", 1 if tier == "quick" else 2), check,
+                                      max_executions=None if tier == "quick" else 6000)
         sh.states += stats["points"]
         sh.transitions += stats["points"]
         sh.traces += stats["executions"]
         sh.evaluations += stats["executions"]
         sh.nontrivial += max(0, stats["executions"] - 2)
         sh.bump("thread_executions", stats["executions"])
-        sh.extra["preemption_bound_completed_h%d" % h] = stats["bound_completed"]
+        sh.extra["preemption_bound_completed_%s%d" % ("w" if warm else "h", h)] = stats["bound_completed"]
         if stats.get("capped"):
             sh.bump("thread_harness_capped_not_exhaustive_at_bound_2")
         for schedule, bad in found:
             sh.violation(violation("thread-interference",
+                                   {"part": "warm", "w": h, "first": schedule["first"],
+                                    "preemptions": schedule["preemptions"]} if warm else
                                    {"part": "threads", "h": h, "first": schedule["first"],
                                     "preemptions": schedule["preemptions"]},
                                    "sequential observations", bad, "interference"))
-        sh.sample({"harness": (T_HARNESS + T_HARNESS_3)[h][0], "executions": stats["executions"],
+        sh.sample({"harness": W_HARNESS[h][0] if warm else (T_HARNESS + T_HARNESS_3)[h][0], "executions": stats["executions"],
                    "scheduling_points_total": stats["points"]}, limit=1)
     return sh
